@@ -56,18 +56,26 @@ def run(rep):
     rep.rule = ("XmlWriter.tla model-checked (TextIsData on every DOM in bounds) and bound to the real writer (every model DOM serialised by the real "
                 "node()/writexml and judged by TLC); then TLC (Gen_Xml) enumerates every hostile class string of length <=2 (quick; <=3 thorough, 4 simulated) "
                 "over 18 classes (< > & quotes ]]> &amp; comment, processing instruction, tag-like text, &#10;, braces, $, astral, RTL ...); each string is "
-                "written into 24 text-bearing channels of one form (labels with/without ${refs}, hints, guidance, messages, choice labels and extra columns, "
+                "written into 26 text-bearing channels of one form (labels with/without ${refs}, hints, guidance, messages, choice labels and extra columns, "
                 "default, title, version, appearance, bind/instance/body/settings custom attributes, itext label/hint/choice label) and converted in both "
                 "print modes; the text recovered by ElementTree from the corresponding place must equal the source modulo whitespace cleaning (TLA+ Norm/"
-                "SameData), and the document's element/attribute structure must equal that of the benign baseline form.")
+                "SameData), and the document's element/attribute structure must equal that of the benign baseline form; a default without expression markers must be literal instance text (no action element).")
     rep.assumptions = ["'the corresponding place' per channel is harness/xmlgen.recover", "forms the converter rejects (e.g. '${' opening a malformed reference) are not counted"]
     _xml.mc_writer(rep, rep.tier)
     _xml.writer_conformance(rep, rep.tier, PROP)
     strs = _xml.hostile_strings(rep, rep.tier, rep.seed)
     jobs = [{"classes": s, "fmt": "dict" if i % 6 else ("xlsx" if i % 12 else "md"), "parts": ("c01", "c06")} for i, s in enumerate(strs)]
     outs = conv.map_cases(_xml.run_doc, jobs, chunksize=8)
-    sub, acc, rejected = _xml.validate_docs(rep, PROP, outs, "hostile strings x 24 channels")
-    if len(sub) < 0.6 * len(outs):
+    sub, acc, rejected = _xml.validate_docs(rep, PROP, outs, "hostile strings x 26 channels")
+    # hostile text that makes the converter fall over (anything but its own PyXFormError) changed more than an element
+    ncrash = 0
+    for o in outs:
+        if "crash" in o["status"]:
+            ncrash += 1
+            r = o["res"]["c"] if o["res"]["c"].get("status") == "crash" else o["res"]["p"]
+            rep.violation(f"{PROP}:crash_on_hostile_text:{r.get('errclass')}@{r.get('frame')}", f"classes={o['job']['classes']} {r.get('message')}"[:400],
+                          {"classes": o["job"]["classes"], "fmt": o["fmt"], "clause": "crash_on_hostile_text", "wb": o["wb"]})
+    if len(sub) < 0.6 * len(outs) and not ncrash:
         bad = next(o for o in outs if o["status"] != "ok")
         raise tlc.MachineryError(f"too many hostile forms rejected ({len(outs) - len(sub)}/{len(outs)}): {bad['res']['c'].get('message')}")
     for o, clause in rejected:
@@ -82,6 +90,9 @@ def run(rep):
     t = copy.deepcopy(base["trace"]); t[0]["channels"][1]["rec"]["kids"].append({"k": "e", "tag": "output", "attrs": [], "kids": []}); cans.append(("element_injected", t))
     t = copy.deepcopy(base["trace"]); t[0]["skeleton_same"] = False; cans.append(("structure_changed_by_text", t))
     t = copy.deepcopy(base["trace"]); t[0]["channels"][2]["rec_p"] = {"k": "none"}; cans.append(("text_lost_in_pretty", t))
+    plain = {"p", "lt", "gt", "amp", "quot", "apos", "sp", "entity", "dollar", "astral", "rtl", "numref", "tag", "pi"}
+    basep = next(o for o in ok if set(o["job"]["classes"]) <= plain and o["trace"][0]["default_place"] == "instance")
+    t = copy.deepcopy(basep["trace"]); t[0]["default_place"] = "setvalue"; cans.append(("plain_default_became_an_action", t))
     a, _ = tlc.validate_traces("Trace_Xml", _xml.corpus._cfg("Trace_Xml.cfg", _xml.TRACE_CFG), [c[1] for c in cans] + [base["trace"]], shards=1, env={"PROP": PROP}, tag="canary")
     wrongly = [cans[i][0] for i in a if i < len(cans)]
     if wrongly or len(cans) not in a:
